@@ -168,3 +168,70 @@ claim('C17',
       'that pandas realises the predicted dtype; the schema x pandas-metadata x statistics logic inside _dtypes',
       'K17 is a maintainer decision (report vs allocation), recorded not repaired.',
       'DESIGN.md 5/C17')
+
+claim('C01',
+      'constant-folded table composition writer->reader, exhaustiveness of converted-type / encoding / object-encoding arms, value-numbered null tally',
+      'for every dtype of the property the reader\'s dtype table composed with the writer\'s is the identity (nullable '
+      'types through their numpy twin) and both sides use the same PLAIN width, wide enough for the dtype; every '
+      'converted/logical type, encoding and object encoding the writer can emit has a decoding arm in both page '
+      'readers / convert(); every datetime unit pair has a correct time factor; the in-place v2 read paths (which '
+      'discard convert()\'s result) exclude non-in-place conversions; the chunk null count the reader\'s skip-levels '
+      'shortcut relies on is the exact tally over all pages.',
+      'equality of cell values, null placement, index reconstruction, pandas block layout, fixed-offset time zones for all frames x options',
+      'Trusts the constant folder and the enum table parsed from ttypes.py.',
+      'DESIGN.md 5/C01')
+
+claim('C03',
+      'dispatch exhaustiveness against the enum tables, control dependence of own-layout shortcuts on selfmade, CFG positional discipline of the v2 reader, reachability over bit-loop skeletons',
+      'every decoding dispatch covers its enum or ends in a raise; the shortcuts that assume fastparquet\'s own layout '
+      'are control dependent on selfmade, which derives only from created_by; optional header flags are defaulted '
+      'only when absent; v2 value decoding starts after both level blocks on every path; the delta decoder is told '
+      'the column width at every call site; decoder output stores are clamped; bit accumulators hold every width '
+      '(known findings K11a/K11b reported per width).',
+      'that supported inputs decode to the right values (dictionary fallback, page splits, null scatter, logical conversion)',
+      'R3.2 (deprecated BIT_PACKED level encoding is never dispatched on) is a note: no witness file could be produced here.',
+      'DESIGN.md 5/C03')
+
+claim('C04',
+      'value-numbered tally over all page-loop paths, sibling-branch agreement, None-ness test discipline, alpha-equivalence of decode blocks',
+      'on every path through the page loop the chunk null tally grows by exactly that page\'s null count, counted on '
+      'the unstripped page slice, reported identically in the v2 header and passed to both Statistics constructions; '
+      'both statistics branches drop min/max when there is no non-null value or no order and strip the length prefix '
+      'only for converted byte arrays; the four decode blocks of api.statistics are isomorphic and test presence with '
+      '`is not None`; the stats setting is resolved per column for the documented forms; derived statistics are '
+      'computed on a private structure.',
+      'that min/max are the true extrema under the column type\'s order (e.g. categorical order) - value-level',
+      'Trusts the symbolic walker.',
+      'DESIGN.md 5/C04')
+
+claim('C08',
+      'def-use agreement of opened vs recorded paths, literal agreement of the path grammar across writer and four parsers, de-duplication key shape',
+      'each part file is opened at root/path/part and recorded as path/part over the same definitions after its '
+      'directory was created, never for an empty group; partition columns are removed from the stored columns and '
+      'recorded with their dtype; the separators of the writer are those every reader-side parser splits on and '
+      'every val_to_num of a path value receives its key\'s partition metadata; timestamp keys keep full precision; '
+      'path values are de-duplicated per (key, value); partition text is parsed int before float.',
+      'value-kind fidelity of arbitrary values through str()/val_to_num',
+      'Literal matching of the grammar is deliberate: the grammar is the contract between sibling parsers.',
+      'DESIGN.md 5/C08')
+
+claim('C11',
+      'reachability fixpoint over the extracted control skeleton of the bit loops (finite counter states per width), guarded-store inventory of the decoders, literal agreement of run-header polarity',
+      'every decoder store into its output is clamped by the remaining capacity; for every width 1..32 (1..64 delta) no '
+      'reachable state of read_bitpacked / delta_read_bitpacked / encode_bitpacked loses payload bits, shifts by >= '
+      'the operand width or overflows a narrow counter (exhaustive; K11a-c reported per failing width); encoders and '
+      'the hybrid decoder agree on header polarity and count scaling; delta callers pass longval exactly for 64-bit '
+      'output; an RLE level run is header+value for both page versions; the hybrid decoder is bypassed only for own files.',
+      'that each codec equals the specification function on its whole domain (value-level)',
+      'Assumes the .pyx sources are what is compiled (Cython absent).',
+      'DESIGN.md 5/C11')
+
+claim('C12',
+      'guarded-store inventory over the Cython front end, reachability over bit-loop control skeletons, who-must-call rule for check_32',
+      'every raw store of cencoding.pyx/speedups.pyx (bounds checks off) is GUARDED, SIZED by construction, behind a '
+      'checked NumpyIO writer or listed with its well-formedness assumption - the unguarded ones are known findings '
+      'K12a-c; on every reachable state of the bit loops shift counts are below the operand width and narrow counters '
+      'stay in range (K11a-c); every computed i32 page-header field of the writer goes through check_32.',
+      'absence of undefined behaviour in the compiled artefact; raw loads on malformed input',
+      'The property\'s own observation point (a sanitised execution) is another technique family; this decides the source-level discipline only.',
+      'DESIGN.md 5/C12')
